@@ -43,9 +43,28 @@ func main() {
 
 var r *ev.Run
 
+// scratch directories, removed also when the run ends through harnessFatal
+var scratch struct {
+	sync.Mutex
+	dirs []string
+}
+
+func tempDir(prefix string) string {
+	d := ev.TempDir(prefix)
+	scratch.Lock()
+	scratch.dirs = append(scratch.dirs, d)
+	scratch.Unlock()
+	return d
+}
+
 func harnessFatal(f string, a ...interface{}) {
 	fmt.Fprintf(os.Stderr, "C07 harness: "+f+"\n", a...)
 	fmt.Printf("BROKEN-CHECK C07: "+f+"\n", a...)
+	scratch.Lock()
+	for _, d := range scratch.dirs {
+		os.RemoveAll(d)
+	}
+	scratch.Unlock()
 	os.Exit(ev.ExitBroken)
 }
 
